@@ -258,8 +258,16 @@ func stringBytes(s *Stream) ([]byte, error) {
 			}
 			fallthrough
 		default:
-			// multi bytes character
-			if !utf8.FullRune(s.buf[cursor : len(s.buf)-1]) {
+			// multi bytes character: only the bytes delivered so far count,
+			// the rest of the buffer is NUL padding until the next refill
+			end := cursor + utf8.UTFMax
+			if max := int64(len(s.buf)) - 1; end > max {
+				end = max
+			}
+			if i := bytes.IndexByte(s.buf[cursor:end], nul); i >= 0 {
+				end = cursor + int64(i)
+			}
+			if !utf8.FullRune(s.buf[cursor:end]) {
 				s.cursor = cursor
 				if s.read() {
 					_, cursor, p = s.stat()
